@@ -31,13 +31,38 @@ KINDS = ["nackgen", "nackresp", "rrecv", "rsend", "twccsend", "twcchdr", "rfc888
 TIMED = {"twccsend", "cc", "ccleaky", "pacing", "rfc8888"}     # containers bounded by a time window (500 ms): phases must outlast it
 
 
-def script(rng, kinds, workload, feedback, n, timed):
+def script_rtcp(rng, kinds, n):
+    """RTCP-heavy workload: n outgoing extended reports and n/4 incoming reports per phase (state kept per feedback message)."""
+    members = [{"k": k, "o": {"ivl": 1, "size": 512}} for k in kinds]
+    steps = [{"a": "heap", "ms": 20, "kind": "base"}, {"a": "bindw"}, {"a": "bindr"},
+             {"a": "bindl", "s": 1, "nack": True, "twcc": 0, "rtx": False, "fec": False},
+             {"a": "bindm", "s": 2, "nack": True, "twcc": 0, "pli": False},
+             {"a": "wait", "ms": 20, "kind": "feedback-rtcp"}]
+    for ph in range(4):
+        if ph == 1:     # once the histories are full: one extended report with two receiver reference time blocks
+            steps.append({"a": "wrtcp", "s": 1, "kind": "xr2", "id": 1, "fail": False})
+        steps.append({"a": "par", "par": [
+            {"a": "wrtcp", "s": 1, "kind": "xr", "id": 1, "fail": False, "rep": n},
+            {"a": "wrtcp", "s": 1, "kind": "sr", "id": 1, "fail": False, "rep": n // 4},
+            {"a": "rrtcp", "s": 2, "kind": "sr", "id": 1, "fail": False, "rep": n // 4},
+            {"a": "rrtcp", "s": 1, "kind": "rr", "id": 1, "w": 5, "fail": False, "rep": n // 4}]})
+        steps.append({"a": "heap", "ms": 30, "kind": "phase"})
+    steps += [{"a": "unbindl", "s": 1}, {"a": "unbindm", "s": 2}, {"a": "close"}, {"a": "heap", "ms": 50, "kind": "final"}]
+    return {"members": members, "steps": steps, "watch": 120000, "settle": 5, "nowire": True}
+
+
+def script(rng, kinds, workload, feedback, n, timed, failing=False):
     members = [{"k": k, "o": {"ivl": 1, "size": 512, "k": 5, "n": 2, "rate": 80_000_000}} for k in kinds]
     twcc = 0
     steps = [{"a": "heap", "ms": 20, "kind": "base"}, {"a": "bindw"}, {"a": "bindr"},
              {"a": "bindl", "s": 1, "nack": True, "twcc": twcc, "rtx": True, "fec": True},
              {"a": "bindm", "s": 2, "nack": True, "twcc": 7, "pli": False},
              {"a": "wait", "ms": 0, "kind": ("feedback-" if feedback else "nofeedback-") + workload}]
+    if feedback:      # one extended report that carries two receiver reference time blocks
+        steps.append({"a": "wrtcp", "s": 1, "kind": "xr2", "id": 1, "fail": False})
+    if failing:       # a second local stream whose transport-side writer always fails, with a packet stuck on it
+        steps.append({"a": "bindl", "s": 3, "nack": False, "twcc": 0, "rtx": False, "fec": False, "fail": True})
+        steps.append({"a": "wrtp", "s": 3, "w": 1, "id": 1, "len": 100, "shape": 0, "fail": False})
     inc = {"inorder": 1, "loss": 3, "dup": 1}[workload]
     gap = (700_000 // n) if timed else 0
     w = 0
@@ -54,6 +79,7 @@ def script(rng, kinds, workload, feedback, n, timed):
             roles.append({"a": "rrtcp", "s": 1, "kind": "twccfb", "w": w % 65536, "tw": w % 65536, "id": 1, "fail": False,
                           "rep": n // 3, "inc": 3, "gap": gap * 3})
             roles.append({"a": "rrtcp", "s": 2, "kind": "sr", "id": 1, "fail": False, "rep": n // 50 + 1, "gap": gap * 50})
+            roles.append({"a": "wrtcp", "s": 1, "kind": "xr", "id": 1, "fail": False, "rep": n // 20 + 1, "gap": gap * 20})
         steps.append({"a": "par", "par": roles})
         if feedback:   # acknowledge the tail of the phase so that report-driven histories are drained at the boundary
             steps.append({"a": "rrtcp", "s": 1, "kind": "ccfb", "w": (w + n - 3) % 65536, "tw": 0, "id": 1, "fail": False})
@@ -86,13 +112,19 @@ def run(ctx):
                  [(wl, fb) for wl in ("inorder", "loss", "dup") for fb in (True, False)]
         for wl, fb in combos:
             scripts.append(script(rng, [k], wl, fb, n if k not in TIMED or not ctx.quick else 2000, k in TIMED))
+    for k in ("stats", "rsend", "rrecv", "pdsend"):             # state kept per feedback message
+        scripts.append(script_rtcp(rng, [k], 20000 if ctx.quick else 200000))
+    for k in ("pacing", "ccleaky", "nackresp", "flexfec"):      # steady traffic next to a stream whose transport keeps failing
+        scripts.append(script(rng, [k], "inorder", True, 2000 if ctx.quick else n, k in TIMED, failing=True))
     if not ctx.quick:
         scripts.append(script(rng, ["nackgen", "nackresp", "rrecv", "rsend", "stats", "flexfec"], "loss", True, n, False))
         scripts.append(script(rng, ["twcchdr", "twccsend", "rtpfb", "stats"], "loss", True, n, True))
-    # heap measurements are process-wide: one script at a time, a fresh process per chunk keeps earlier garbage out
-    chunk = 14
+    # heap measurements are process-wide: one script at a time per process; separate processes run side by side
+    chunk = 7 if ctx.quick else 9
+    jobs = []
     for i in range(0, len(scripts), chunk):
-        run_batch(ctx, scripts[i:i + chunk], "T-heap-%d" % (i // chunk))
+        jobs.append(lambda child, part=scripts[i:i + chunk], tag="T-heap-%d" % (i // chunk): run_batch(child, part, tag))
+    vlib.run_parallel(ctx, jobs, max_workers=4)
     ctx.assumptions += ["live heap after two forced GCs is the measure of retained memory", "slack 192 KiB / 1500 objects per phase"]
     return vlib.finish(ctx, "exploration", RULE)
 
